@@ -80,6 +80,7 @@ type allocCase struct {
 	encReq    string // accept-enc body (only when ok)
 	nVirt     int
 	entryVirt bool
+	errClass  string
 }
 
 func runAllocPipeline(fn *ir.Function) (c allocCase, ok bool) {
@@ -139,7 +140,13 @@ func runAllocPipeline(fn *ir.Function) (c allocCase, ok bool) {
 		return pass.VerifyAllocation(fn)
 	})
 	if err != nil {
-		c.outcome = "err " + classifyAllocErr(err, panicked)
+		// the property demands an error, not a particular one: only a panic stays distinct
+		c.errClass = classifyAllocErr(err, panicked)
+		if panicked {
+			c.outcome = "err panic"
+		} else {
+			c.outcome = "err"
+		}
 		return c, true
 	}
 	c.outcome = encAllocation(fn.Allocation)
@@ -213,7 +220,11 @@ func init() {
 				continue
 			}
 			stats["functions"]++
-			stats["outcome:"+strings.Join(strings.Fields(c.outcome)[:min(2, len(strings.Fields(c.outcome)))], "_")]++
+			if c.errClass != "" {
+				stats["outcome:err_"+c.errClass]++
+			} else {
+				stats["outcome:"+strings.Join(strings.Fields(c.outcome)[:min(2, len(strings.Fields(c.outcome)))], "_")]++
+			}
 			if strings.HasPrefix(c.outcome, "ok") {
 				stats["outcome:ok"]++
 			}
